@@ -424,8 +424,8 @@ func runC11(r *rt.Run, tier string) {
 					break
 				}
 			}
-			r2, err := control.NewParagraphReader(simio.NewPlainReader(r, "r2", []byte(c11Foreign)), nil)
-			if err == nil {
+			r2, err := control.NewParagraphReader(simio.NewPlainReader(r, "r2", []byte(c11Foreign+"\nForeign-Three: injected-three\n")), nil)
+			if err == nil && t.Bool(1, 2, "c11.r2reads") {
 				r2.Next()
 			}
 			for i := 0; i < 3; i++ {
